@@ -12,6 +12,7 @@ from ..run import Outcome
 
 ID = "C11"
 BUDGET = {"quick": 12000, "thorough": 160000}
+FUZZ = {"thorough": 6000}  # coverage-guided stage: libFuzzer runs per worker (x16), see vk/fuzz.py
 RULE = (
     "Hypothesis: 1-7 ballots over <=4 candidates, each ballot one of {ranking only, scores only, "
     "both, neither}, tied positions allowed, weights/scores int | p/q | float (|x| >= 1e-5), "
